@@ -84,9 +84,12 @@ def check_par(tier, pid, chk=None):
     if chk is None:
         chk = Check(pid, tier, "proof")
         pinned = {"C03": ["C03_par_optimal_every_schedule", "C03_par_correct", "C03_discarding_the_fringe_is_sound",
-                          "C03_parallel_solver_returns_optimum", "C03_parallel_finished_run_is_optimal", "C03_holds_on_table_family"],
+                          "C03_parallel_solver_returns_optimum", "C03_parallel_finished_run_is_optimal", "C03_holds_on_table_family",
+                          "C03_parallel_solver_returns_optimum_NoDupFringe", "C03_holds_on_table_family_NoDupFringe",
+                          "C03_example_coalescing_while_another_worker_holds_a_node"],
                   "C04": ["C04_no_deadlock", "C04_no_worker_crash", "C04_completion_only_when_idle", "C04_terminates_within_explicit_bound",
-                          "C04_parallel_terminates", "C04_no_deadlock_no_crash_any_cutoff", "C04_no_reachable_deadlock"]}.get(pid)
+                          "C04_parallel_terminates", "C04_no_deadlock_no_crash_any_cutoff", "C04_no_reachable_deadlock",
+                          "C04_parallel_terminates_NoDupFringe", "C04_no_deadlock_no_crash_any_cutoff_NoDupFringe"]}.get(pid)
         if pinned:
             pr = check_proofs("%s+%su" % (pid, pid), pinned)
             proof_coverage(chk, pr, "make theories/Props/%s.vo Props/%su.vo && coqc on both (Print Assumptions scanned)" % (pid, pid))
@@ -290,7 +293,7 @@ def check_par(tier, pid, chk=None):
                                    "schedule (identical (worker, critical-section) sequences, results, explored / poll counts), plus the property evaluated on the "
                                    "implementation with exhaustive enumeration as oracle. Protocol theorems (no deadlock, termination bound, optimality under every schedule; "
                                    "Props/%s.v under the diagram contracts, Props/%su.v unconditional for the clean flavours)." % (pid, pid),
-                    "open_obligations": ["cache / dominance / pooled / NoDupFringe configurations: trace validation + oracle only",
+                    "open_obligations": ["cache / dominance / pooled configurations: trace validation + oracle only",
                                          "real-thread effects below the granularity of critical sections (memory ordering, spurious wake-ups)"]})
     chk.assumptions = ["parking_lot: mutex mutual exclusion; condvar without spurious wake-ups; notify_all wakes every waiter",
                        "compilations of different workers only interact through the cache / dominance store (dashmap per-key atomicity); "
